@@ -168,13 +168,74 @@ var c02Tokens = []string{
 	"QUIT\r\n",
 }
 
+// ---- a message line longer than the line limit -------------------------------------------------------------------
+
+type C02LongCase struct {
+	Mode  string `json:"mode"`
+	Where string `json:"where"` // only | last | before-dot-line | middle
+	Seg   string `json:"seg"`   // one | octet
+}
+
+// evalC02Long: the server may refuse such a message and may even close the connection; but if it keeps the connection,
+// the message still ends at its end marker and the commands behind it are executed - not swallowed.
+func evalC02Long(c C02LongCase) *h.Finding {
+	cfg, be := modeConfig(c.Mode)
+	cfg.MaxLineLength = 40
+	long := strings.Repeat("L", 60) + "\r\n"
+	var msg string
+	switch c.Where {
+	case "only":
+		msg = long
+	case "last":
+		msg = "first\r\n" + long
+	case "before-dot-line":
+		msg = "first\r\n" + long + "..stuffed\r\nlast\r\n"
+	default:
+		msg = "first\r\n" + long + "last\r\n"
+	}
+	in := []byte(hello(c.Mode) + "MAIL FROM:<ok@a.example>\r\nRCPT TO:<ok@b.example>\r\nDATA\r\n" + msg + ".\r\n" + c02Follow + "DATA\r\nsecond message\r\n.\r\nQUIT\r\n")
+	segs := h.OneSeg(in)
+	if c.Seg == "octet" {
+		segs = h.PerOctet(in)
+	}
+	o := h.RunS(cfg, be, segs, h.TermEOF)
+	desc := fmt.Sprintf("mode=%s: a message whose %s line has 60 octets (MaxLineLength 40), segmentation %s", c.Mode, c.Where, c.Seg)
+	if f := o.Sanity("c02", desc); f != nil {
+		return f
+	}
+	marks := 0
+	for _, e := range o.Trace {
+		if (e.Kind == "Mail" && e.Arg == "okmark1@x") || (e.Kind == "Rcpt" && e.Arg == "okmark2@x") {
+			marks++
+		}
+		if (e.Kind == "Mail" || e.Kind == "Rcpt") && !strings.HasPrefix(e.Arg, "ok") {
+			return h.F("c02-bait-executed", "%s: message text was executed: %s(%s)", desc, e.Kind, e.Arg)
+		}
+	}
+	second := false
+	for _, e := range o.Trace {
+		if (e.Kind == "Data" || e.Kind == "LMTPData") && string(e.Body) == "second message\r\n" && e.ReadErr == "EOF" {
+			second = true
+		}
+	}
+	// the server either gave up on the connection (it never gets to answer QUIT) or it stayed in the conversation -
+	// then every command behind the first end marker was executed, in particular the second transfer
+	n := len(o.Replies)
+	if stayed := n > 0 && o.Replies[n-1].Code == 221; stayed && (marks != 2 || !second) {
+		return h.F("c02-follow-up-swallowed", "%s: the server stayed in the conversation up to QUIT, yet the commands behind the first end marker were not all executed (%d of 2 markers, second message delivered: %t; replies %s): the message did not end at its end marker", desc, marks, second, o.Codes())
+	}
+	return nil
+}
+
+func init() { h.RegisterReplayer("c02-long", evalC02Long) }
+
 func C02(tier string) int {
 	run := h.NewRun("C02", tier, "exploration", "", 20*time.Minute)
 	maxTok := 3
 	if tier == "thorough" {
 		maxTok = 4
 	}
-	run.Rule = fmt.Sprintf("messages = all sequences of <=%d tokens from %q, terminated by CRLF.CRLF and followed by pipelined marker commands; x backend {reads all, 0, 1, n/2 octets} x {accept, reject} x size limit {none, n/2, n, n+10} x {SMTP, LMTP plain backend, LMTP per-recipient backend} x segmentation {one segment, one octet per segment, every 2-split from 4 octets before to 6 after the end marker; one segment also with MaxLineLength 8192, i.e. above the read-buffer size}. Distinct by construction; non-trivial = message contains a bait command or a terminator look-alike. Oracle: no bait address reaches the backend; replies and backend calls after the final DATA reply equal those the lines after the first true end marker (ref.Unstuff) produce on a connection that just finished a trivial transaction (differential).", maxTok, c02Tokens)
+	run.Rule = fmt.Sprintf("messages = all sequences of <=%d tokens from %q, terminated by CRLF.CRLF and followed by pipelined marker commands; x backend {reads all, 0, 1, n/2 octets} x {accept, reject} x size limit {none, n/2, n, n+10} x {SMTP, LMTP plain backend, LMTP per-recipient backend} x segmentation {one segment, one octet per segment, every 2-split from 4 octets before to 6 after the end marker; one segment also with MaxLineLength 8192, i.e. above the read-buffer size}. Distinct by construction; non-trivial = message contains a bait command or a terminator look-alike. Plus messages with a line longer than MaxLineLength at 4 positions (refused and closed, or the message still ends at its end marker). Oracle: no bait address reaches the backend; replies and backend calls after the final DATA reply equal those the lines after the first true end marker (ref.Unstuff) produce on a connection that just finished a trivial transaction (differential).", maxTok, c02Tokens)
 	run.Assumptions = []string{"reply codes of the DATA command itself are judged by C04/C06, not here", "the reference run (same server code, trivial message) defines what the follow-up commands do; only its agreement with the run under test is judged"}
 	var msgs [][]int
 	var rec func(cur []int)
@@ -245,5 +306,17 @@ func C02(tier string) int {
 		}
 		run.Outcomes(out)
 	})
+	for _, mode := range []string{"smtp", "lmtp", "lmtp-rcpt"} {
+		for _, where := range []string{"only", "last", "before-dot-line", "middle"} {
+			for _, seg := range []string{"one", "octet"} {
+				c := C02LongCase{Mode: mode, Where: where, Seg: seg}
+				f := evalC02Long(c)
+				run.Eval(true)
+				if f != nil {
+					run.Violate("c02-long", c, f, func() *h.Finding { return evalC02Long(c) })
+				}
+			}
+		}
+	}
 	return run.Finish()
 }
